@@ -188,6 +188,7 @@ def run(ctx):
     ctx.rule("R05.f", "in a context manager that saved a field and writes the saved value back, the write-back is passed on every exit after the yield (normal or exceptional)", floor=4)
     ctx.rule("R05.g", "a self-resetting Event is reset even when a watcher raises during the assignment: in Event.__set__ the reset is passed on the exceptional exit of super().__set__", floor=1)
     ctx.rule("R05.h", "a failing flush leaves no events behind: every exceptional exit of the flush passes a reset of both queues", floor=1)
+    ctx.rule("R05.m", "update model: Parameters._update interpreted abstractly (entry batching flag x key orders incl. an Event key x a rejected or unknown key at every position x a value identical to the current one, 60 cases): flag restored, flush exactly once iff outermost and after the restore, keys applied in order up to the failing one, Event mode and reset, complete previous-values mapping", floor=1)
     ctx.not_decided += ["that later dispatch equals that of a fresh object (behavioural equivalence)",
                         "loop-carried partial restores inside a finally (finally blocks are summarised as atomic)"]
     ctx.assumptions += [
@@ -282,6 +283,9 @@ def run(ctx):
                         ctx.fail("R05.d", f, fn_, "the flush runs while the batching flag is still raised (a raising flush leaves it set)",
                                  key="%s::flush-before-restore::%s" % (f.qualname, fn_.text()))
     _scope_floor(ctx, temp_scopes)
+
+    from checks import update_model
+    update_model.report(ctx, "C05", "R05.m")
 
 
 def _scope_floor(ctx, temp_scopes):
